@@ -658,6 +658,31 @@ func (m *Monitors) c13(o *obs) {
 		default:
 			m.viol(o, "C13", "transition", "a connection end changed state outside INIT->OPEN, TRYOPEN->OPEN", ob)
 		}
+		if od.State == "INIT" && nw.State == "OPEN" {
+			// the version fixed by the ACK is ONE version, and this end offered it on INIT: same identifier,
+			// features a subset of the offered ones (so the result lies within both sides' feature sets)
+			offered, got := parseVersions(od.Versions), parseVersions(nw.Versions)
+			okv := len(got) == 1
+			if okv {
+				okv = false
+				for _, ov := range offered {
+					if ov.id == got[0].id && len(got[0].feats) > 0 {
+						all := true
+						for _, f := range got[0].feats {
+							if !contains(ov.feats, f) {
+								all = false
+							}
+						}
+						if all {
+							okv = true
+						}
+					}
+				}
+			}
+			if !okv {
+				m.viol(o, "C13", "ack-version", "ConnOpenAck opened the connection with a version this end did not offer on INIT (identifier or features outside the offered ones)", ob)
+			}
+		}
 		if od.Client != nw.Client || od.CpClient != nw.CpClient || od.Prefix != nw.Prefix || od.Delay != nw.Delay {
 			m.viol(o, "C13", "immutable", "client, counterparty client, prefix or delay period of a connection end changed", ob)
 		}
@@ -705,6 +730,30 @@ func (m *Monitors) c13(o *obs) {
 // ------------------------------------------------------------------------------------------------
 // C14  ordered timeouts close the channel; nothing flows on a CLOSED end
 // ------------------------------------------------------------------------------------------------
+
+type connVersion struct {
+	id    string
+	feats []string
+}
+
+// parseVersions reads the canonical versions string of a connection end ("id:f1,f2;id:f1")
+func parseVersions(s string) []connVersion {
+	var out []connVersion
+	if s == "" {
+		return out
+	}
+	for _, v := range strings.Split(s, ";") {
+		cv := connVersion{id: v}
+		if i := strings.Index(v, ":"); i >= 0 {
+			cv.id = v[:i]
+			if v[i+1:] != "" {
+				cv.feats = strings.Split(v[i+1:], ",")
+			}
+		}
+		out = append(out, cv)
+	}
+	return out
+}
 
 // packetEnd is the local channel end a v1 packet op acts on.
 func packetEnd(o *obs) (string, bool) {
